@@ -63,7 +63,7 @@ def run(ctx: Ctx) -> None:
     ctx.assumptions.append("inputs are well-typed YAML trees (numbers, strings, dicts); type errors are outside the model")
     ctx.assumptions.append("termination is formalised as: the predicate is true exactly on non-fixpoints of refine and every guarded "
                            "iteration adds cells (children inherit ratios, so an unguarded repeat without new ratios splits for ever by design)")
-    n = min(ctx.n(700, 12000), 5000)   # the x20 extended search is capped: histories are expensive
+    n = min(ctx.n(1000, 5000), 5000)   # the x20 extended search is capped: histories are expensive
     pending: list = []
     seeds = getattr(ctx, "seed_inputs", None) or []
     for s in seeds[:20]:
